@@ -70,13 +70,13 @@ def takeCells : Nat → List String → List Scalar → Option (List Scalar × L
     let c ← parseCell t
     takeCells n rest (c :: acc)
 
-/-- body → flows of batches of rows (reversed accumulators); stops at `RESULT` -/
+/-- body → flows of batches of rows (reversed accumulators); stops at `NOTE` (the rest of the line is a comment for replays: LIMIT / OFFSET of the query, which the flows must ignore) -/
 def parseBody (w : Nat) : Nat → List String → List (List (List (List Scalar))) →
     Option (List (List (List (List Scalar))) × List String)
   | 0, _, _ => none
   | _ + 1, [], acc => some (acc, [])
   | fuel + 1, tok :: rest, acc =>
-    if tok == "RESULT" then some (acc, rest)
+    if tok == "NOTE" then some (acc, rest)
     else if tok == "P" then parseBody w fuel rest ([] :: acc)
     else if tok == "B" then
       match acc with
